@@ -10,7 +10,8 @@ correspondence: the model (QNum, vm_compute) is run beside the implementation on
                 fractions / selectivities; the whitelist and the absolute-pressure guard over all 16 model names
 oracle/search : certificate check of EVERY returned result on the implementation: fractions in [0,1] summing to one, equal
                 spreading pressures at p_i/x_i and the mixing rule, recomputed through the isotherms' own methods; closed forms
-                (Henry, equal-capacity Langmuir); permutation; forward o reverse; wrappers == point calculation
+                (Henry, equal-capacity Langmuir); permutation; forward o reverse; wrappers == point calculation; the same numbers handed over
+                as ints / tuples / integer and float32 ndarrays / numpy scalars give the result of Python floats (certificate + closed forms)
 """
 import itertools
 import math
@@ -26,14 +27,17 @@ MANIFEST = dict(
     text="PARTIAL proof. Machine-checked (Coq 8.16): (i) the IAST equations as a specification over R for any number of components "
          "(Iast/IastSpec.v) with their consequences proved by induction over the component list: invariance under permutation, uniqueness of "
          "the solution for strictly increasing spreading pressures, closed forms for Henry and equal-capacity Langmuir mixtures (extended "
-         "Langmuir); (ii) for a hand-written model of pgiast.py (residual vector with last fraction 1-sum, default guess, range test, ideal "
+         "Langmuir); forward and reverse IAST invert each other (reverse_iast's gas fractions fed back into iast_point give the same loadings; from "
+         "uniqueness + the two post-condition theorems, root finders as premises); (ii) for a hand-written model of pgiast.py (residual vector with last fraction 1-sum, default guess, range test, ideal "
          "mixing, reverse_iast, iast_point_fraction / iast_binary_svp / iast_binary_vle, the _IAST_MODELS whitelist and the absolute-pressure "
          "guard): the residual is zero iff all spreading pressures are equal, and WHENEVER the model returns, the returned loadings satisfy "
          "the IAST equations - under the explicit premise that scipy.optimize.root(method='lm') reports success only at a zero of the residual. "
          "That premise is NOT proved (Levenberg-Marquardt is not modelled; its success flag means a convergence test fired, not that the "
          "residual vanished): it is validated on every run by substituting every result the implementation returns back into the IAST "
          "equations through the isotherms' own spreading_pressure_at / loading_at (certificate check), together with the closed forms, "
-         "permutation, forward/reverse and wrapper clauses. The model is tied to the code by executing it (QNum) beside the implementation "
+         "permutation, forward/reverse and wrapper clauses, and by repeating calls with the same numbers in other numeric types (Python ints, "
+         "tuples, int16/32/64 and float32 arrays, numpy scalars for partial pressures, total pressure, fractions): same result as with Python floats, "
+         "certificate and closed forms included. The model is tied to the code by executing it (QNum) beside the implementation "
          "on every generated call. Not modelled: exceptions raised inside isotherm methods while the solver iterates, logging, user guesses "
          "rejected by assert_almost_equal, numpy's inf/nan arithmetic at a zero fraction.",
     note="Trusted: Coq kernel; Reals axioms as printed by Print Assumptions; the hand-written model Iast/IastGlue.v (validated by the per-call "
@@ -153,6 +157,27 @@ def gen(tier, seed):
         C.append(dict(kind='svp', specs=specs, y=[y1, 1.0 - y1], Ps=sorted(lu(rnd, 0.05, 20) for _ in range(rnd.randint(2, 6)))))
         C.append(dict(kind='vle', specs=specs, P=lu(rnd, 0.05, 20), npoints=rnd.choice([3, 5, 9])))
         C.append(dict(kind='fraction', specs=[rspec(rnd, point_ok=False) for _ in range(rnd.choice([2, 3]))], P=lu(rnd, 0.05, 20)))
+    # T: numeric TYPE of the inputs: whole-number partial pressures / total pressures and dyadic fractions, handed over as Python ints, tuples,
+    #    integer (int16/32/64) / float32 ndarrays, numpy scalars ... must give what the same numbers give as Python floats
+    for i in range(320 if big else 36):
+        n = rnd.choice([2, 2, 3])
+        sub = ['henry', 'langmuir_eq', 'general', 'general'][i % 4]
+        Ks = [lu(rnd, 0.05, 5) for _ in range(n)]
+        M = lu(rnd, 0.5, 10)
+        if sub == 'henry':
+            specs = [('model', 'Henry', {'K': k}, 'absolute') for k in Ks]
+        elif sub == 'langmuir_eq':
+            specs = [('model', 'Langmuir', {'K': k, 'n_m': M}, 'absolute') for k in Ks]
+        else:
+            specs = [rspec(rnd, point_ok=rnd.random() < 0.2) for _ in range(n)]
+        base = rnd.choice([1, 1, 3, 10])
+        C.append(dict(kind='types', sub=sub, specs=specs, p=[rnd.randint(1, 9) * base for _ in range(n)], variants=rnd.sample(sorted(TYPE_VARIANTS), 3)))
+    for i in range(120 if big else 14):
+        n = rnd.choice([2, 2, 3])
+        specs = [rspec(rnd, point_ok=False) for _ in range(n)]
+        cuts = sorted(rnd.sample(range(64, 960, 32), n - 1))
+        xs = [(b - a) / 1024.0 for a, b in zip([0] + cuts, cuts + [1024])]
+        C.append(dict(kind='types-wrappers', specs=specs, x=xs, P=rnd.randint(1, 12), variants=rnd.sample(sorted(TYPE_VARIANTS), 3)))
     # F: guards: every model name (whitelist), relative pressure, one component, wrong number of pressures, wrapper argument checks
     for name in ALL_MODELS:
         for fn in ('point', 'reverse'):
@@ -171,6 +196,24 @@ def gen(tier, seed):
     C.append(dict(kind='guard', fn='svp', specs=[h, h], p=[0.25, 0.25, 0.5]))
     C.append(dict(kind='guard', fn='vle', specs=[h, h, h], p=[0.5, 0.5]))
     return C
+
+
+# the same numbers in another numeric type (values are whole numbers or dyadic fractions, exactly representable in every one of them)
+TYPE_VARIANTS = {
+    'int-list': lambda v: [int(a) if float(a).is_integer() else float(a) for a in v],
+    'int-tuple': lambda v: tuple(int(a) if float(a).is_integer() else float(a) for a in v),
+    'int64-array': lambda v: np.array(v, dtype=np.int64) if all(float(a).is_integer() for a in v) else np.array(v, dtype=np.float64),
+    'int32-array': lambda v: np.array(v, dtype=np.int32) if all(float(a).is_integer() for a in v) else np.array(v, dtype=np.float64),
+    'int16-array': lambda v: np.array(v, dtype=np.int16) if all(float(a).is_integer() for a in v) else np.array(v, dtype=np.float64),
+    'npint-list': lambda v: [np.int64(a) if float(a).is_integer() else np.float64(a) for a in v],
+    'float32-array': lambda v: np.array(v, dtype=np.float32),
+    'npfloat32-list': lambda v: [np.float32(a) for a in v],
+    'float64-array': lambda v: np.array(v, dtype=np.float64),
+    'mixed-list': lambda v: [int(a) if (j % 2 == 0 and float(a).is_integer()) else float(a) for j, a in enumerate(v)],
+}
+LOWP = ('float32-array', 'npfloat32-list')     # reduced precision: the default start vector is computed in that precision
+SCALAR_VARIANTS = {'int-list': int, 'int-tuple': int, 'int64-array': np.int64, 'int32-array': np.int32, 'int16-array': np.int16, 'npint-list': np.int64,
+                   'float32-array': np.float32, 'npfloat32-list': np.float32, 'float64-array': np.float64, 'mixed-list': int}
 
 
 # ------------------------------------------------------------------ running the implementation
@@ -316,12 +359,13 @@ def _explore(rep, tier, cases, pg, proxy):
             rp['observed'] = extra
         rep.failure(tag, what, rp)
 
-    def point_call(case, isos, specs, p, guess, label):
-        """iast_point with capture; certificate; correspondence term. -> (oc, loadings|None, fractions|None)"""
+    def point_call(case, isos, specs, p, guess, label, p_arg=None, coq=True):
+        """iast_point with capture; certificate; correspondence term. -> (oc, loadings|None, fractions|None)
+        p_arg: the object actually handed over as partial pressures (same numbers as p in another numeric type)"""
         nonlocal n_eval
         n_eval += 1
         ncalls = len(proxy.calls)
-        oc, out = call(pg.iast_point, isos, list(p), warningoff=True, adsorbed_mole_fraction_guess=None if guess is None else list(guess))
+        oc, out = call(pg.iast_point, isos, list(p) if p_arg is None else p_arg, warningoff=True, adsorbed_mole_fraction_guess=None if guess is None else list(guess))
         cap = proxy.calls[-1] if len(proxy.calls) > ncalls else None
         note('%s/%s' % (label, oc))
         xs = None
@@ -342,7 +386,7 @@ def _explore(rep, tier, cases, pg, proxy):
                     worst['sp_rel'] = max(worst['sp_rel'], (max(sp) - min(sp)) / max(abs(v) for v in sp))
                     nontrivial.add((tuple(s[1] for s in specs), tuple(round(math.log10(v), 1) for v in p), guess is None))
         # ---- correspondence term
-        if oc in ('Ok', 'ParameterError', 'CalculationError'):
+        if coq and oc in ('Ok', 'ParameterError', 'CalculationError'):
             t = fwd_term(specs, isos, p, guess, cap, oc, out)
             if t:
                 terms.append(t); term_case.append((case, label))
@@ -482,6 +526,63 @@ def _explore(rep, tier, cases, pg, proxy):
                 fail(case, 'forward-reverse', 'reverse_iast gave y=%r, n=%r but iast_point at P*y gives %r' % (ys, list(nr), list(out2)), xs=xs2, extra=[float(v) for v in out2])
             elif oc2 == 'Ok':
                 nontrivial.add(('fr', tuple(s[1] for s in specs), round(P, 3)))
+        elif kind == 'types':
+            pf = [float(v) for v in case['p']]
+            oc, out, xs = point_call(case, isos, specs, pf, None, 'types-float')
+            if oc != 'Ok' or xs is None:
+                continue
+            if case['sub'] == 'henry':
+                exp = [s_[2]['K'] * v for s_, v in zip(specs, pf)]
+            elif case['sub'] == 'langmuir_eq':
+                c = sum(s_[2]['K'] * v for s_, v in zip(specs, pf))
+                exp = [s_[2]['n_m'] * s_[2]['K'] * v / (1 + c) for s_, v in zip(specs, pf)]
+            else:
+                exp = None
+            for j, vn in enumerate(case['variants']):
+                arg = TYPE_VARIANTS[vn](case['p'])
+                c2 = dict(case, variant=vn)
+                exact_vs = [v for v in case['variants'] if v not in LOWP]
+                oc2, out2, xs2 = point_call(c2, isos, specs, pf, None, 'types-' + vn, p_arg=arg, coq=bool(exact_vs) and vn == exact_vs[0])
+                if vn in LOWP and min(xs) < TRACE:
+                    continue      # reduced-precision start vector + trace component: the solver's own tolerance dominates, not judged
+                if oc2 != 'Ok' or xs2 is None or not close_n(out2, out):
+                    fail(c2, 'input-type', 'iast_point with partial pressures %r (%s) gives %s %r, the same numbers as Python floats give %r' % (
+                        arg, vn, oc2, None if out2 is None else [float(v) for v in np.atleast_1d(out2)], [float(v) for v in out]), xs=xs,
+                        extra=None if out2 is None else [float(v) for v in np.atleast_1d(out2)])
+                elif exp is not None and min(xs) >= TRACE and not close_n(out2, exp):
+                    fail(c2, case['sub'] + '-closed-form', '%s mixture with partial pressures %r (%s): returned %r, closed form %r' % (case['sub'], arg, vn, list(out2), exp), xs=xs,
+                         extra=[float(v) for v in out2])
+                else:
+                    nontrivial.add(('types', vn, case['sub'], tuple(s_[1] for s_ in specs)))
+        elif kind == 'types-wrappers':
+            n = len(isos)
+            xs_, P = case['x'], case['P']
+            ref_f = call(pg.iast_point_fraction, isos, list(xs_), float(P), warningoff=True)
+            ref_r = call(pg.reverse_iast, isos, list(xs_), float(P), warningoff=True)
+            ref_s = call(pg.iast_binary_svp, isos[:2], [0.25, 0.75], [float(P), float(P) + 1.0, float(P) + 3.0], warningoff=True)
+            ref_v = call(pg.iast_binary_vle, isos[:2], float(P), npoints=3, warningoff=True)
+            for vn in case['variants']:
+                if vn in LOWP:
+                    continue      # float32 / float16 change the default start vector; wrappers are compared for the exact types only
+                n_eval += 1
+                xa, Pa = TYPE_VARIANTS[vn](xs_), SCALAR_VARIANTS[vn](P)
+                c2 = dict(case, variant=vn)
+                got_f = call(pg.iast_point_fraction, isos, xa, Pa, warningoff=True)
+                got_r = call(pg.reverse_iast, isos, xa, Pa, warningoff=True)
+                got_s = call(pg.iast_binary_svp, isos[:2], TYPE_VARIANTS[vn]([0.25, 0.75]), TYPE_VARIANTS[vn]([P, P + 1, P + 3]), warningoff=True)
+                got_v = call(pg.iast_binary_vle, isos[:2], Pa, npoints=3, warningoff=True)
+                note('types-wrappers-%s/%s' % (vn, got_f[0]))
+                def same(a, b, pick):
+                    if a[0] != b[0]:
+                        return False
+                    return a[0] != 'Ok' or all(close_n(u, v) for u, v in zip(pick(a[1]), pick(b[1])))
+                bad = [w for w, a, b, pick in (('iast_point_fraction', got_f, ref_f, lambda o: [o]), ('reverse_iast', got_r, ref_r, lambda o: [o[0], o[1]]),
+                                               ('iast_binary_svp', got_s, ref_s, lambda o: [o['selectivity']]), ('iast_binary_vle', got_v, ref_v, lambda o: [o['x'], o['y']]))
+                       if not same(a, b, pick)]
+                if bad:
+                    fail(c2, 'input-type', '%s with fractions %r and total pressure %r (%s) differ from the same numbers as Python floats' % (bad, xa, Pa, vn))
+                elif got_f[0] == 'Ok':
+                    nontrivial.add(('types-wrappers', vn, tuple(s_[1] for s_ in specs)))
         elif kind == 'fraction':
             n_eval += 1
             n = len(isos)
@@ -611,7 +712,9 @@ def _explore(rep, tier, cases, pg, proxy):
     rep.cov['input_distribution'] = dict(sorted(hist.items()))
     rep.cov['generators'] = ('2-4 components; 8 model families with log-uniform parameters (K 0.05-20, capacities 0.5-10), 20% point isotherms (25-80 points sampled '
                              'from Langmuir/DSLangmuir/Toth); partial pressures log-uniform with ratio <= 8 (75%) or <= 300 (25%); 25% user guesses; closed-form '
-                             'families; random permutations; reverse problems with dyadic fractions; svp/vle/fraction wrappers; all 16 model names x guards')
+                             'families; random permutations; reverse problems with dyadic fractions; svp/vle/fraction wrappers; all 16 model names x guards; whole-number '
+                             'partial / total pressures and dyadic fractions in 9 numeric representations (int list, tuple, int16/32/64 arrays, numpy int scalars, '
+                             'float32 array / scalars, float64 array, mixed int-float list) for iast_point, iast_point_fraction, reverse_iast, iast_binary_svp / vle')
     rep.cov['correspondence'] = {'calls_compared_in_coq': len(terms), 'disagreements': n_dis, 'tolerance_rel': 1e-9,
                                  'what': 'IastGlue (QNum) vs pgiast: outcome class, start vector, residual at the returned point vs the code\'s closure, returned values'}
     rep.cov['certificate'] = {'rtol_spreading_pressure': RTOL_SP, 'rtol_loading_of_total': RTOL_N, 'worst_relative_spread_accepted': worst['sp_rel'],
@@ -621,7 +724,9 @@ def _explore(rep, tier, cases, pg, proxy):
                                 'oracle: scipy.optimize.root(method=lm) - success => residual zero (validated by the certificate check on every returned result)',
                                 'oracle: pure-component spreading_pressure_at / loading_at (model formulas are C10/C11; scipy.integrate.quad for Toth, Jensen-Seaton)',
                                 'carrier: theorems over RNum, execution over QNum']
-    rep.assumptions += ['Levenberg-Marquardt convergence is not modelled; its post-condition is a premise of post_satisfies_spec_partial / reverse_satisfies_spec_partial',
+    rep.assumptions += ['numeric types: narrow dtypes that overflow inside the pure-component formulas (uint8 / int8: p**2 wraps; float16: overflow to inf) are not generated; '
+                        'float32 inputs are compared with the float64 result only when no component is a trace component (the default start vector is computed in float32)',
+                        'Levenberg-Marquardt convergence is not modelled; its post-condition is a premise of post_satisfies_spec_partial / reverse_satisfies_spec_partial',
                         'results with a fraction equal to 0 (fictitious pressure undefined) and calls that raise are outside the property (whenever the calculation returns)',
                         'uniqueness / permutation / forward-reverse hold for strictly increasing spreading pressures and positive fractions',
                         'IEEE rounding excluded (1e-6 relative on the certificate, 1e-9 on the model/code correspondence)']
@@ -641,9 +746,20 @@ def replay(d):
         print('reverse_iast(x=%r, P=%r) ->' % (r['x'], r['P']), oc, out)
         if oc == 'Ok':
             print('certificate:', certificate(isos, [r['P'] * y for y in out[0]], r['x'], out[1]))
+    elif kind == 'types-wrappers':
+        vn = r.get('variant', 'int-list')
+        xa, Pa = TYPE_VARIANTS[vn](r['x']), SCALAR_VARIANTS[vn](r['P'])
+        print('iast_point_fraction(%r, %r) ->' % (xa, Pa), call(pg.iast_point_fraction, isos, xa, Pa, warningoff=True), ' as floats ->',
+              call(pg.iast_point_fraction, isos, list(r['x']), float(r['P']), warningoff=True))
+        print('reverse_iast(%r, %r) ->' % (xa, Pa), call(pg.reverse_iast, isos, xa, Pa, warningoff=True), ' as floats ->',
+              call(pg.reverse_iast, isos, list(r['x']), float(r['P']), warningoff=True))
     elif 'p' in r:
-        oc, out = call(pg.iast_point, isos, r['p'], warningoff=True, adsorbed_mole_fraction_guess=r.get('guess'))
-        print('iast_point(p=%r) ->' % (r['p'],), oc, out)
+        parg = r['p']
+        if r.get('variant') in TYPE_VARIANTS:
+            parg = TYPE_VARIANTS[r['variant']](r['p'])
+            print('the same numbers as Python floats ->', call(pg.iast_point, isos, [float(v) for v in r['p']], warningoff=True))
+        oc, out = call(pg.iast_point, isos, parg, warningoff=True, adsorbed_mole_fraction_guess=r.get('guess'))
+        print('iast_point(p=%r) ->' % (parg,), oc, out)
         if oc == 'Ok':
             xs = [float(v) / float(sum(out)) for v in out]
             print('fractions', xs)
